@@ -295,3 +295,21 @@ Definition wf_fobjb (k : fkb) (i : nat) (o : fobj) : bool :=
   end.
 Definition wf_fkbb (k : fkb) : bool :=
   forallb (fun p => wf_fobjb k (fst p) (snd p)) (combine (seq 0 (length k)) k).
+
+(* ---------- public inference operations (between two data updates) ---------- *)
+Inductive fpubop :=
+| FNodeUp (i : nat)
+| FNodeDown (i : nat) (idx : option nat)
+| FModelUp (src : option nat)
+| FModelDown (src : option nat)
+| FInfer (src : option nat) (max_steps : nat) (fuel : nat).
+Definition fexec_op (k : fkb) (roots : list nat) (s : fstate) (o : fpubop) : fstate * Q :=
+  match o with
+  | FNodeUp i => f_node_up k s i
+  | FNodeDown i idx => f_node_down k s i idx
+  | FModelUp src => f_pass k roots Up src s
+  | FModelDown src => f_pass k roots Down src s
+  | FInfer src ms fuel => let r := f_infer_loop fuel k roots None src ms s 0 0 in (fir_state r, fir_amount r)
+  end.
+Definition fexec_ops (k : fkb) (roots : list nat) (s : fstate) (ops : list fpubop) : fstate :=
+  fold_left (fun st o => fst (fexec_op k roots st o)) ops s.
